@@ -84,7 +84,7 @@ for pid in sorted(P):
         "replay_cmd_template": "./check %s --replay {path}" % pid,
         "engine": "E1-mon" if pid not in ("C15", "C17", "C18") else {"C15": "E3-macrogen", "C17": "E2-battery", "C18": "E4-readers+E5-typecheck"}[pid],
         "level_claimed": {"category": "exploration", "text": text, "design_ref": ref},
-        "level_note": note or "see DESIGN.md",
+        "level_note": (note or "see DESIGN.md") + " Workloads and laws added after the rounds of independently seeded changes (copy probe via clone_from / serde round trip, pre-worn arenas and generation churn, internal-iteration laws, deep-tree child process, all-features release build) are listed in DESIGN.md section 8; section 9 lists the seeded changes and which check catches which.",
         "technique": tech,
     })
 
@@ -110,7 +110,7 @@ manifest = {
     ],
     "checks": checks,
     "not_applicable": [{"property_id": k, "reason": v} for k, v in sorted(NA.items()) if k not in P],
-    "notes": "Technique family: runtime monitoring and sanitizers. Genuine defects found by the monitors were repaired in /repo with 'fix:' commits and are recorded in known_findings.txt (no open finding). Exit 2 + 'INCONCLUSIVE' means no verdict (build failure, harness error, coverage floor).",
+    "notes": "Technique family: runtime monitoring and sanitizers. Genuine defects found by the monitors were repaired in /repo with 'fix:' commits and are recorded in known_findings.txt (no open finding). Exit 2 + 'INCONCLUSIVE' means no verdict (build failure, harness error, coverage floor). Every behavioural check runs a default-features build with debug assertions and an all-features release build; 180 independently written seeded changes (seeded/) are all detected by the quick tier.",
 }
 
 json.dump(manifest, open(os.path.join(VERIF, "MANIFEST.json"), "w"), indent=1)
